@@ -30,6 +30,31 @@ class Session:
         D = DeclarativeCircuit
         for name in ('__init__', 'add_operation', 'add_sub_circuit', 'apply_modifiers', 'flatten'):
             self.saved[name] = D.__dict__[name]
+        self.saved_struct_add = CircuitCompositeOperation.__dict__['add']
+
+        def struct_add(self_, operation):
+            """circuit_structure.add(...) called by user code directly (public on the composite): same events, no copy."""
+            if not S.active or S.depth > 0:
+                return S.saved_struct_add(self_, operation)
+            R = S.rec
+            S.adopt(self_)
+            is_comp = isinstance(operation, CircuitCompositeOperation)
+            if is_comp:
+                S.adopt(operation)
+            given = S.clean(R.link(operation))
+            S.depth += 1
+            try:
+                ret = S.saved_struct_add(self_, operation)
+            finally:
+                S.depth -= 1
+            if is_comp:
+                S.events.append({'ev': 'AddSub', 'c': R.oid(self_), 's': R.oid(operation), 'id': R.oid(operation), 'cmap': [], 'given': given,
+                                 'after': S.clean(R.link(operation)), 'how': 'struct', 'recs': {}, 'links': {}, 'last_same': True, 'tree': R.tree(operation)})
+            else:
+                S.events.append({'ev': 'AddOp', 'c': R.oid(self_), 'id': R.oid(operation), 'rec': R.leaf_static(operation), 'given': given,
+                                 'after': S.clean(R.link(operation)), 'ret_same': True, 'last_same': True})
+            return ret
+        CircuitCompositeOperation.add = struct_add
 
         def init(self_, *a, **k):
             S.saved['__init__'](self_, *a, **k)
@@ -57,7 +82,7 @@ class Session:
             if not S.active or S.depth > 0:
                 return S.saved['add_sub_circuit'](self_, operation)
             R = S.rec
-            S.ensure_known(operation)
+            S.adopt(operation)
             given = S.clean(R.link(operation))
             R.take_copies()
             S.depth += 1
@@ -141,6 +166,7 @@ class Session:
     def uninstall(self):
         for name, f in self.saved.items():
             setattr(DeclarativeCircuit, name, f)
+        CircuitCompositeOperation.add = self.saved_struct_add
         self.rec.uninstall()
         self.active = False
 
@@ -162,9 +188,34 @@ class Session:
                     recs[R.oid(k)] = R.leaf_static(k)
         return recs, links
 
-    def ensure_known(self, structure):
-        """A bare CircuitCompositeOperation handed to add_sub_circuit (no DeclarativeCircuit around it) is announced first."""
-        return structure
+    def adopt(self, structure):
+        """A structure the trace has not seen being built (a bare CircuitCompositeOperation made by user code) is announced as
+        it stands: the specification takes its content and the relations it reports as given."""
+        if self.rec.known(structure) and getattr(self, '_announced', None) and id(structure) in self._announced:
+            return
+        if not hasattr(self, '_announced'):
+            self._announced = set()
+        known_by_event = any(e.get('c') == self.rec.oid(structure) and e['ev'] in ('NewCircuit', 'Adopt') for e in self.events) or \
+            any(self.rec.oid(structure) in (e.get('tree') or {}) for e in self.events if e['ev'] in ('AddSub', 'CopyCirc', 'Apply', 'Adopt'))
+        self._announced.add(id(structure))
+        if known_by_event:
+            return
+        R = self.rec
+        recs, links = self.describe(structure)
+        links[R.oid(structure)] = self.clean(R.link(structure))
+        self.events.append({'ev': 'Adopt', 'c': R.oid(structure), 'tree': R.tree(structure), 'recs': recs, 'links': links})
+
+    def observe(self, circuit, phase, compare=None):
+        """An explicit observation battery in the middle of a trace (library grids: constructed / unrolled / flattened)."""
+        st = circuit.circuit_structure
+        self.depth += 1
+        try:
+            snap = self.rec.snapshot(st, handle=circuit)
+        finally:
+            self.depth -= 1
+        self.events.append({'ev': 'Obs', 'c': self.rec.oid(st), 'what': 'full', 'final': False, 'implicit': False, 'phase': phase,
+                            'compare': compare or 0, 'snap': snap})
+        return len(self.events)
 
     def take(self, final=True):
         """The trace recorded so far (plus one observation battery per distinct live circuit structure); resets the session."""
